@@ -160,6 +160,10 @@ def _run(mod, cid, tier, seed, root, tmp, opts, t0):
 
     rc = 0
     replay_dir = os.path.join(HERE, 'replays')
+    if os.path.isdir(replay_dir) and not opts.replay:
+        for fn in os.listdir(replay_dir):
+            if fn.startswith('%s-seed%d-%s-' % (cid, seed, tier)):
+                os.remove(os.path.join(replay_dir, fn))
     if real:
         rc = 1
         os.makedirs(replay_dir, exist_ok=True)
